@@ -369,6 +369,37 @@ Definition c04_case (id : Z) (c : cfg) (es : list event) (os : list obs) (final 
   let oi := forallb (fun a => obs_final_eqb final (snd a)) alts in
   [id; mask; first; step_; code; if oi then 1 else 0; Z.of_nat (List.length es)].
 
+(* C04 at the rendering projection: the locations the real generateNginxCfgForMergeableIngresses writes for a
+   master (server [host]) are exactly, for every minion of that host, the paths of which that minion is the
+   least claimant -- each path served by exactly one minion, the oldest *)
+Definition expected_locations (o : objs) (host : string) : list (string * string) :=
+  flat_map (fun i => filter_map (fun p => match least (claimants (path_claims (o_ings o) host) p) with
+                                          | Some y => if String.eqb (fst y) (key_of_ing i) then Some (p, key_of_ing i) else None
+                                          | None => None end) (i_paths i))
+           (minions_of (o_ings o) host).
+
+Definition loc_dec := pair_dec string_dec string_dec.
+Definition subset_locs (a b : list (string * string)) : bool :=
+  forallb (fun x => existsb (fun y => eqb_of loc_dec x y) b) a.
+
+Definition render_ok (o : objs) (host : string) (locs : list (string * string)) : bool :=
+  let exp := expected_locations o host in
+  subset_locs locs exp && subset_locs exp locs &&
+  (* one minion per path *)
+  forallb (fun x => forallb (fun y => negb (String.eqb (fst x) (fst y)) || String.eqb (snd x) (snd y)) locs) locs.
+
+Fixpoint render_run (o : objs) (es : list event) (ms : list (list (string * list (string * string)))) (i : Z) : Z :=
+  match es, ms with
+  | e :: er, m :: mr =>
+      let o' := apply_event o e in
+      if forallb (fun hm => render_ok o' (fst hm) (snd hm)) m then render_run o' er mr (i + 1) else i
+  | _, _ => 0
+  end.
+
+Definition c04_render_case (id : Z) (c : cfg) (es : list event) (os : list obs) (final : obs)
+           (alts : list (list event * obs)) (ms : list (list (string * list (string * string)))) : list Z :=
+  [id; render_run objs0 es ms 1; Z.of_nat (List.length (List.concat ms))].
+
 (* ---- C16: the controller acts only on resources of its own class ---- *)
 
 (* HasCorrectIngressClass with ingress class "nginx": for an Ingress the annotation (if non-empty)
